@@ -799,14 +799,16 @@ func (t *T) fail(now bool, msg string) {
 	}
 }
 
-// failIfFailed propagates a non-fatal failure signalled on inner (the T passed to a Custom generator function) to t.
+// failIfFailed propagates a failure signalled on inner (the T passed to a Custom generator function) to t,
+// and stops the test case there: the value just generated can still be rejected (and its bits discarded)
+// by an enclosing generator, after which the failure could not be reproduced from the recorded bitstream.
 func (t *T) failIfFailed(inner *T) {
 	inner.mu.RLock()
 	failed := inner.failed
 	inner.mu.RUnlock()
 
 	if failed != "" {
-		t.fail(false, string(failed))
+		t.fail(true, string(failed))
 	}
 }
 
